@@ -9,7 +9,7 @@ from .. import tlc
 from ..common import Report, pmap
 from ..e2e import base_scenario
 
-FAMILY = r"^files\.(count|sizes|numbering|closed_once)|^run\.crashed|^close\.after|^timer\.within_run"
+FAMILY = r"^files\.(count|sizes|numbering|names|closed_once)|^run\.crashed|^close\.after|^timer\.within_run"
 DRIVERS = {"e2e-schedule": ("harness.e2e", "run_e2e", "LadimTrace", FAMILY)}
 
 
